@@ -43,6 +43,25 @@ impl Local {
     pub fn violations(&self) -> Vec<Violation> {
         self.viols.values().map(|x| x.1.clone()).collect()
     }
+    /// Adds another thread-local tally to this one.
+    pub fn absorb(&mut self, o: Local) {
+        self.evals += o.evals;
+        self.nontrivial += o.nontrivial;
+        self.states += o.states;
+        self.transitions += o.transitions;
+        self.traces += o.traces;
+        for (k, n) in o.outcomes {
+            *self.outcomes.entry(k).or_insert(0) += n;
+        }
+        for (sig, (n, v)) in o.viols {
+            match self.viols.get_mut(&sig) {
+                None => {
+                    self.viols.insert(sig, (n, v));
+                }
+                Some(e) => e.0 += n,
+            }
+        }
+    }
     pub fn outcome(&mut self, k: &'static str) {
         *self.outcomes.entry(k).or_insert(0) += 1;
     }
